@@ -185,6 +185,14 @@ pub fn catalogue(thorough: bool) -> Value {
         }
     }
 
+    // the same receptions in the opposite order: a record must not depend on what was received before it
+    {
+        let mut rev = kinds.clone();
+        rev.reverse();
+        scenarios.push(json!({"name": "kinds:reversed", "group": "kinds", "sensors": sensors,
+            "options": {"dedup_ms": 0, "df_filter": null, "aircraft_filter": null, "via": "cli", "rest": true}, "events": rev}));
+    }
+
     // --- C10: the same frame heard by both receivers, windows honoured
     for (w, gap, merged) in [(450, 0.05, true), (450, 0.8, false), (1500, 0.8, true), (0, 0.05, false), (200, 0.5, false)] {
         let x1 = df17(5, 0x4b1a01, &me_bds08(4, 1, &cs_codes("DUP00001")), 0);
